@@ -574,6 +574,8 @@ def _rebuild(p):
             return numpoly.aspolynomial(a)
         if via == "indeterminants_call":
             return a(*a.indeterminants)
+        if via == "sympy":
+            return numpoly.polynomial(numpoly.to_sympy(a))
         raise ValueError(via)
     return run
 
@@ -783,3 +785,88 @@ def _polydiv(p):
 @action("same")
 def _same(p):
     return lambda a, b: None
+
+
+# ------------------------------------------------- C13 pickle, copy, text round trips
+@action("copy")
+def _copy(p):
+    import copy
+    import pickle
+    how = p["how"]
+
+    def run(a):
+        if how == "pickle":
+            return pickle.loads(pickle.dumps(a, protocol=p["protocol"]))
+        if how == "copy":
+            return copy.copy(a)
+        if how == "deepcopy":
+            return copy.deepcopy(a)
+        return a.copy()
+    return run
+
+
+def _save_kwargs(p):
+    kw = {}
+    for k in ("fmt", "delimiter", "header", "comments"):
+        if k in p and p[k] != "default":
+            kw[k] = p[k]
+    return kw
+
+
+@action("saveload")
+def _saveload(p):
+    import io
+    import os
+    import tempfile
+    import numpoly
+
+    def run(a):
+        kw = _save_kwargs(p)
+        writer = numpy.savetxt if p.get("writer") == "numpy" else numpoly.savetxt
+        lkw = {k: kw[k] for k in ("delimiter", "comments") if k in kw}
+        if p.get("target") == "path":
+            fd, path = tempfile.mkstemp(suffix=".txt")
+            os.close(fd)
+            try:
+                writer(path, a, **kw)
+                return numpoly.loadtxt(path, **lkw)
+            finally:
+                os.remove(path)
+        buf = io.StringIO()
+        writer(buf, a, **kw)
+        buf.seek(0)
+        return numpoly.loadtxt(buf, **lkw)
+    return run
+
+
+@action("loadplain")
+def _loadplain(p):
+    import io
+    import numpoly
+
+    def run(a):
+        buf = io.StringIO()
+        numpy.savetxt(buf, numpy.atleast_1d(numpy.asarray(a)).ravel())
+        buf.seek(0)
+        return numpoly.loadtxt(buf)
+    return run
+
+
+# ------------------------------------------------------ C16 str / repr / sympy
+@action("text")
+def _text(p):
+    import numpoly
+    from . import textlex
+    from .record import Extra
+    fn = p["fn"]
+
+    def run(a):
+        text = {"str": str, "repr": repr, "array_str": numpoly.array_str, "array_repr": numpoly.array_repr}[fn](a)
+        opts = numpoly.get_options()
+        kind = "repr" if "repr" in fn else "str"
+        try:
+            terms, err = textlex.lex(text, kind, opts["display_multiply"], opts["display_exponent"]), ""
+        except Exception as exc:  # noqa: BLE001 - an unreadable text is an observation
+            terms, err = [], "%s: %s" % (type(exc).__name__, str(exc)[:120])
+        return Extra(None, text=text[:400], terms=terms, lexerror=err)
+    return run
